@@ -109,7 +109,11 @@ def assumed_facts(vname, terms, view=None):
                 # (a tuple- or struct-typed cell is presented by the value graph as the cells `f.0`, `f.1` / `f.name`)
                 ops.append([st for st in subs if st[0] == 'in' and view is not None and any(
                     (f.name == st[1] or (st[1].startswith(f.name + '.') and not any(w in str(f.ty_str) for w in ('usize', 'bool', 'u64', 'u32', 'i64', 'i32'))))
-                    and f.role == 'cell' and not str(f.ty_str).startswith(('usize', 'bool', 'u', 'i')) for f in view.fields)])
+                    and f.role == 'cell' and not str(f.ty_str).startswith(('usize', 'bool', 'u', 'i')) for f in view.fields)] +
+                           # (a register kept in an Option<float> cell is read through its payload)
+                           [st for st in subs if st[0] == 'payload' and isinstance(st[1], tuple) and st[1][0] == 'in' and view is not None and any(
+                               f.name == st[1][1] and f.role == 'cell' and 'Option<' in str(f.ty_str) and not any(w in str(f.ty_str) for w in ('usize', 'bool', 'u64', 'u32', 'i64', 'i32'))
+                               for f in view.fields)])
             else:
                 ops.append([])
         for l in ops[0]:
